@@ -153,7 +153,7 @@ func runC16(w *World, r *Report) {
 		}},
 		{"Saved", ").ReadTransactionByHash", argPaths("_", "in.Data"), []g{{"request signed over the requested hash", verifyReq}}},
 	}
-	r.rule("effect-behind-authorisation", "the protected effect of each notary handler lies behind the success edge of every required check, applied to the same request fields", 20)
+	r.rule("effect-behind-authorisation", "the protected effect of each notary handler lies behind the success edge of every required check, applied to the same request fields", 14)
 	for _, row := range rows {
 		f := w.fx(r, "notaryserver", "server", row.handler)
 		if f == nil {
@@ -205,7 +205,7 @@ func runC16(w *World, r *Report) {
 		}
 	}
 	// every effectful awaiting/ledger call in the notary handlers is one of the table's rows (closure)
-	r.rule("no-unlisted-effects", "notary handlers contain no ledger / awaiting-cache effect outside the authorisation table", 8)
+	r.rule("no-unlisted-effects", "notary handlers contain no ledger / awaiting-cache effect outside the authorisation table", 5)
 	listed := map[string]bool{}
 	for _, row := range rows {
 		listed[row.handler+row.effect] = true
